@@ -151,6 +151,9 @@ class VerifyResponder:
         sub = [(T_ID, ident), (T_SIG, sig)]
         if k == "inner":
             sub = mutate_items(sub, mut["inner"])
+        if mut.get("inner_extra"):
+            pos = mut.get("inner_extra_pos", len(sub))
+            sub = sub[:pos] + [tuple(x) for x in mut["inner_extra"]] + sub[pos:]
         nonce = C.nonce_label(b"PV-Msg02")
         if k == "wrong_nonce":
             nonce = C.nonce_label(mut["label"])
